@@ -24,17 +24,43 @@ Lemma gen_cf_extent_char (x y : cf_axis R) :
    ax_last x + ax_sign x * ax_spacing x / 2, ax_first y - ax_sign y * ax_spacing y / 2).
 Proof. unfold gen_cf_extent; cbn -[lit]. rewrite half_lit. tuple_eq. Qed.
 
-Lemma gen_gdal_extent_char c a f e ds :
-  gen_gdal_extent RO c a f e ds = (c, f + e * IZR (RasterYSize ds), c + a * IZR (RasterXSize ds), f).
-Proof. unfold gen_gdal_extent; cbn -[IZR]. tuple_eq. Qed.
+Lemma gen_gdal_area_char c a f e ds :
+  gen_gdal_area RO c a f e ds =
+  ((c, f + e * IZR (RasterYSize ds), c + a * IZR (RasterXSize ds), f), (RasterYSize ds, RasterXSize ds)).
+Proof. unfold gen_gdal_area; cbn -[IZR]. tuple_eq. Qed.
+
+Lemma gen_rio_area_char (ds : rio_ds R) : gen_rio_area ds = (rio_bounds ds, (rio_height ds, rio_width ds)).
+Proof. unfold gen_rio_area. tuple_eq. Qed.
+
+(* the refusal test is exactly "some rotation term is non-zero" *)
+Lemma gen_gdal_rotated_char b d : gen_gdal_rotated RO b d = true <-> ~ (b = 0 /\ d = 0).
+Proof.
+  unfold gen_gdal_rotated; cbn [eqb RO ofZ]. unfold Reqb.
+  destruct (Req_EM_T b d) as [E|E]; destruct (Req_EM_T d 0) as [E0|E0]; cbn; split; intros H; try easy; try (intros [? ?]; lra).
+  - exfalso. apply H. split; lra.
+Qed.
+Lemma gen_rio_rotated_char b d : gen_rio_rotated RO b d = true <-> ~ (b = 0 /\ d = 0).
+Proof.
+  unfold gen_rio_rotated; cbn [eqb RO ofZ]. unfold Reqb.
+  destruct (Req_EM_T b d) as [E|E]; destruct (Req_EM_T d 0) as [E0|E0]; cbn; split; intros H; try easy; try (intros [? ?]; lra).
+  - exfalso. apply H. split; lra.
+Qed.
+
+Lemma gen_geos_scale_char (x : cf_axis R) h :
+  gen_geos_scale RO x h = mk_axis (ax_first x * h) (ax_last x * h) (ax_spacing x * h) (ax_nb x) (ax_sign x).
+Proof. unfold gen_geos_scale; cbn. f_equal; portfolio. Qed.
+
+Lemma gen_cf_areadef_char (x y : cf_axis R) :
+  gen_cf_areadef RO (mk_axes x y) = (ax_nb x, ax_nb y, gen_cf_extent RO x y).
+Proof. unfold gen_cf_areadef; cbn. reflexivity. Qed.
 
 Lemma gen_cartopy_bounds_char (a : area R) :
   gen_cartopy_bounds a = (xmin a, xmax a, ymin a, ymax a).
 Proof. unfold gen_cartopy_bounds, area_extent; cbn. tuple_eq. Qed.
 
-Lemma gen_geobox_affine_char (a : area R) :
-  gen_geobox_affine RO a = (dxR a, 0, xmin a, 0, - dyR a, ymax a).
-Proof. unfold gen_geobox_affine, mk_affine6, area_extent, pixel_size_x, pixel_size_y, dxR, dyR; cbn -[IZR]. tuple_eq. Qed.
+Lemma gen_geobox_char (a : area R) :
+  gen_geobox RO a = ((dxR a, 0, xmin a, 0, - dyR a, ymax a), (height a, width a)).
+Proof. unfold gen_geobox, mk_affine6, area_extent, pixel_size_x, pixel_size_y, dxR, dyR; cbn -[IZR]. tuple_eq. Qed.
 
 (* ------------------------------------------------------------------ one axis *)
 Lemma sign_times_spacing d : d <> 0 -> d / Rabs d * Rabs d = d.
@@ -68,7 +94,7 @@ Lemma cf_area_of_axes_eq (x y : cf_axis R) x0 sx y0 sy w h :
   ax_first y = y0 -> ax_last y = y0 + (IZR h - 1) * sy -> ax_nb y = h -> ax_sign y * ax_spacing y = sy ->
   cf_area_of_axes RO x y = affine_area x0 sx y0 sy w h.
 Proof.
-  intros Fx Lx Nx Sx Fy Ly Ny Sy. unfold cf_area_of_axes. rewrite gen_cf_extent_char. unfold area_of_extent, affine_area.
+  intros Fx Lx Nx Sx Fy Ly Ny Sy. unfold cf_area_of_axes. rewrite gen_cf_areadef_char, gen_cf_extent_char. unfold area_of_extent, affine_area.
   rewrite Nx, Ny. f_equal.
   - rewrite Fx. replace (ax_sign x * ax_spacing x / 2) with (sx / 2) by (rewrite <- Sx; lra). lra.
   - rewrite Ly. replace (ax_sign y * ax_spacing y / 2) with (sy / 2) by (rewrite <- Sy; lra). lra.
@@ -229,21 +255,21 @@ Proof.
   destruct (load_axis_scaled (ymax a - dyR a / 2) (- dyR a) hgt (height a) Hh ltac:(lra) Hk) as (Fy & Ly & Ny & Sy).
   rewrite (cf_area_of_axes_eq _ _ (xmin a + dxR a / 2) (dxR a) (ymax a - dyR a / 2) (- dyR a) (width a) (height a)).
   - apply affine_area_of_area; assumption.
-  - unfold scale_axis; cbn [ax_first ax_last ax_spacing ax_nb ax_sign mul RO]. rewrite Fx. field; exact Hk.
-  - unfold scale_axis; cbn [ax_first ax_last ax_spacing ax_nb ax_sign mul RO]. rewrite Lx. field; exact Hk.
-  - unfold scale_axis; cbn [ax_nb]. exact Nx.
-  - unfold scale_axis; cbn [ax_first ax_last ax_spacing ax_nb ax_sign mul RO]. rewrite <- Rmult_assoc, Sx. field; exact Hk.
-  - unfold scale_axis; cbn [ax_first ax_last ax_spacing ax_nb ax_sign mul RO]. rewrite Fy. field; exact Hk.
-  - unfold scale_axis; cbn [ax_first ax_last ax_spacing ax_nb ax_sign mul RO]. rewrite Ly. field; exact Hk.
-  - unfold scale_axis; cbn [ax_nb]. exact Ny.
-  - unfold scale_axis; cbn [ax_first ax_last ax_spacing ax_nb ax_sign mul RO]. rewrite <- Rmult_assoc, Sy. field; exact Hk.
+  - unfold scale_axis; rewrite gen_geos_scale_char; cbn [ax_first ax_last ax_spacing ax_nb ax_sign]. rewrite Fx. field; exact Hk.
+  - unfold scale_axis; rewrite gen_geos_scale_char; cbn [ax_first ax_last ax_spacing ax_nb ax_sign]. rewrite Lx. field; exact Hk.
+  - unfold scale_axis; rewrite gen_geos_scale_char; cbn [ax_nb]. exact Nx.
+  - unfold scale_axis; rewrite gen_geos_scale_char; cbn [ax_first ax_last ax_spacing ax_nb ax_sign]. rewrite <- Rmult_assoc, Sx. field; exact Hk.
+  - unfold scale_axis; rewrite gen_geos_scale_char; cbn [ax_first ax_last ax_spacing ax_nb ax_sign]. rewrite Fy. field; exact Hk.
+  - unfold scale_axis; rewrite gen_geos_scale_char; cbn [ax_first ax_last ax_spacing ax_nb ax_sign]. rewrite Ly. field; exact Hk.
+  - unfold scale_axis; rewrite gen_geos_scale_char; cbn [ax_nb]. exact Ny.
+  - unfold scale_axis; rewrite gen_geos_scale_char; cbn [ax_first ax_last ax_spacing ax_nb ax_sign]. rewrite <- Rmult_assoc, Sy. field; exact Hk.
 Qed.
 
 (* ------------------------------------------------------------------ rasters *)
 Lemma raster_transform_roundtrip a : (1 <= width a)%Z -> (1 <= height a)%Z ->
   raster_load RO (area_affine RO a) (width a) (height a) = a.
 Proof.
-  intros Hw Hh. unfold raster_load, area_affine. rewrite gen_gdal_extent_char. unfold area_of_extent.
+  intros Hw Hh. unfold raster_load, area_affine. rewrite gen_gdal_area_char. unfold area_of_extent.
   destruct a as [x0 y0 x1 y1 w h]; unfold pixel_size_x, pixel_size_y; cbn -[IZR] in *.
   pose proof (IZR_pos_of w Hw). pose proof (IZR_pos_of h Hh). f_equal; field; lra.
 Qed.
@@ -255,7 +281,7 @@ Lemma raster_pixel_location (a c e f : R) w h : (1 <= w)%Z -> (1 <= h)%Z ->
   width b = w /\ height b = h /\
   forall col row, (proj_x RO b col, proj_y RO b row) = affine_apply RO tr (IZR col + / 2) (IZR row + / 2).
 Proof.
-  intros Hw Hh. cbv zeta. unfold raster_load. rewrite gen_gdal_extent_char. unfold area_of_extent. cbn -[IZR proj_x proj_y].
+  intros Hw Hh. cbv zeta. unfold raster_load. rewrite gen_gdal_area_char. unfold area_of_extent. cbn -[IZR proj_x proj_y].
   split; [reflexivity|split; [reflexivity|]]. intros col row.
   rewrite proj_x_canonical, proj_y_canonical. unfold dxR, dyR, affine_apply; cbn -[IZR].
   pose proof (IZR_pos_of w Hw). pose proof (IZR_pos_of h Hh). f_equal; field; lra.
@@ -264,20 +290,21 @@ Qed.
 Lemma raster_flipped_rows a : (1 <= width a)%Z -> (1 <= height a)%Z ->
   raster_load RO (area_affine_sn RO a) (width a) (height a) = rows_reversed a.
 Proof.
-  intros Hw Hh. unfold raster_load, area_affine_sn. rewrite gen_gdal_extent_char. unfold area_of_extent, rows_reversed.
+  intros Hw Hh. unfold raster_load, area_affine_sn. rewrite gen_gdal_area_char. unfold area_of_extent, rows_reversed.
   destruct a as [x0 y0 x1 y1 w h]; unfold pixel_size_x, pixel_size_y; cbn -[IZR] in *.
   pose proof (IZR_pos_of w Hw). pose proof (IZR_pos_of h Hh). f_equal; field; lra.
 Qed.
 
 (* ------------------------------------------------------------------ GeoBox *)
 Lemma geobox_affine_corners a : (1 <= width a)%Z -> (1 <= height a)%Z ->
-  geobox_shape a = (height a, width a) /\
-  affine_apply RO (gen_geobox_affine RO a) 0 0 = (xmin a, ymax a) /\
-  affine_apply RO (gen_geobox_affine RO a) (IZR (width a)) (IZR (height a)) = (xmax a, ymin a) /\
-  forall col row, affine_apply RO (gen_geobox_affine RO a) (IZR col + / 2) (IZR row + / 2) = (proj_x RO a col, proj_y RO a row).
+  geobox_shape RO a = (height a, width a) /\
+  affine_apply RO (geobox_affine RO a) 0 0 = (xmin a, ymax a) /\
+  affine_apply RO (geobox_affine RO a) (IZR (width a)) (IZR (height a)) = (xmax a, ymin a) /\
+  forall col row, affine_apply RO (geobox_affine RO a) (IZR col + / 2) (IZR row + / 2) = (proj_x RO a col, proj_y RO a row).
 Proof.
   intros Hw Hh. pose proof (IZR_pos_of _ Hw). pose proof (IZR_pos_of _ Hh).
-  split; [reflexivity|]. rewrite gen_geobox_affine_char. unfold affine_apply, pixel_size_x, pixel_size_y; cbn -[IZR proj_x proj_y].
+  unfold geobox_shape, geobox_affine. rewrite gen_geobox_char. cbn [fst snd].
+  split; [reflexivity|]. unfold affine_apply, pixel_size_x, pixel_size_y; cbn -[IZR proj_x proj_y].
   split; [|split].
   - apply f_equal2; lra.
   - unfold dxR, dyR. apply f_equal2; field; lra.
@@ -302,4 +329,57 @@ Proof.
   - apply Z.eqb_neq. lia.
   - cbn [eqb RO]. unfold Reqb. destruct (Req_EM_T _ _) as [E|E]; [|reflexivity].
     exfalso. apply Hs. rewrite <- S. cbn [ofZ RO] in E. rewrite E. lra.
+Qed.
+
+(* ------------------------------------------------------------------ wave 2: rasterio branch, refusal of rotation, compositions *)
+(* rasterio branch.  H_bounds (external engine): rasterio's dataset.bounds is the geotransform expression
+   (c, f + e*height, c + a*width, f) - which is what raster_load computes; compared bit for bit on every run. *)
+Lemma rio_roundtrip a (ds : rio_ds R) : (1 <= width a)%Z -> (1 <= height a)%Z ->
+  rio_height ds = height a -> rio_width ds = width a ->
+  rio_bounds ds = area_extent (raster_load RO (area_affine RO a) (width a) (height a)) ->
+  rio_load ds = a.
+Proof.
+  intros Hw Hh Eh Ew Eb. unfold rio_load. rewrite gen_rio_area_char, Eb, Eh, Ew.
+  rewrite raster_transform_roundtrip by assumption. destruct a; reflexivity.
+Qed.
+
+Lemma rotated_iff (tr : affine6 R) :
+  let '(a, b, c, d, e, f) := tr in
+  (rotated RO tr = true <-> ~ (b = 0 /\ d = 0)) /\ (rotated_rio RO tr = true <-> ~ (b = 0 /\ d = 0)).
+Proof. destruct tr as [[[[[a b] c] d] e] f]. split; [apply gen_gdal_rotated_char | apply gen_rio_rotated_char]. Qed.
+
+(* the GeoBox of an area read from a raster carries the raster's own transform *)
+Lemma raster_geobox_same_transform (a c e f : R) w h : (1 <= w)%Z -> (1 <= h)%Z ->
+  let tr : affine6 R := (a, 0, c, 0, e, f) in
+  geobox_affine RO (raster_load RO tr w h) = tr /\ geobox_shape RO (raster_load RO tr w h) = (h, w).
+Proof.
+  intros Hw Hh. cbv zeta. unfold geobox_affine, geobox_shape, raster_load. rewrite gen_gdal_area_char. unfold area_of_extent.
+  rewrite gen_geobox_char. cbn [fst snd RasterXSize RasterYSize width height xmin ymax]. split; [|reflexivity].
+  unfold dxR, dyR; cbn -[IZR]. pose proof (IZR_pos_of w Hw). pose proof (IZR_pos_of h Hh).
+  repeat (apply f_equal2); try reflexivity; field; lra.
+Qed.
+
+(* CF (any orientation) then GeoBox: cell (row, col) of the GeoBox is where element (row, col) of the stored array is *)
+Lemma cf_then_geobox x0 sx y0 sy w h : (2 <= w)%Z -> (2 <= h)%Z -> sx <> 0 -> sy <> 0 ->
+  let b := cf_load RO (fun c => x0 + IZR c * sx) (fun r => y0 + IZR r * sy) w h in
+  geobox_shape RO b = (h, w) /\
+  forall col row, affine_apply RO (geobox_affine RO b) (IZR col + / 2) (IZR row + / 2) = (x0 + IZR col * sx, y0 + IZR row * sy).
+Proof.
+  intros Hw Hh Hx Hy. cbv zeta.
+  destruct (cf_pixel_location x0 sx y0 sy w h Hw Hh Hx Hy) as (Ew & Eh & Hp).
+  set (b := cf_load RO _ _ w h) in *.
+  destruct (geobox_affine_corners b ltac:(lia) ltac:(lia)) as (Hs & _ & _ & Hc).
+  split.
+  - rewrite Hs, Ew, Eh. reflexivity.
+  - intros col row. rewrite Hc. destruct (Hp col row) as [Ex Ey]. rewrite Ex, Ey. reflexivity.
+Qed.
+
+(* writing the loaded (possibly upside-down) area out again and reading it back is the identity *)
+Lemma cf_reload_after_flip a : wf_area a -> (2 <= width a)%Z -> (2 <= height a)%Z ->
+  let b := cf_load RO (cf_x RO a) (cf_y_sn RO a) (width a) (height a) in
+  cf_load RO (cf_x RO b) (cf_y_ns RO b) (width b) (height b) = b.
+Proof.
+  intros Hwf Hw Hh. cbv zeta. destruct (cf_flipped_rows a Hwf Hw Hh) as [E _]. rewrite E.
+  apply cf_axis_roundtrip; unfold rows_reversed; cbn; try assumption.
+  destruct Hwf as (H1 & H2 & H3 & H4). unfold wf_area; cbn. repeat split; auto.
 Qed.
